@@ -17,6 +17,9 @@ inductive Op where
   | ack (h : Nat)                 -- inbound <a h='h'/> reaching Router.route
   | sendFail (s : String)         -- Send / SendRaw of a stanza whose write fails (an error is returned): it was stored
                                   -- before the write and stays held - nothing else changes, in particular not the head
+  | ackFail (h : Nat)             -- as `ack h`, but the connection is dead: every write of the retransmission fails
+                                  -- (the acknowledged stanzas are discarded, nothing is written, nothing else changes -
+                                  -- in particular the session stays usable: the next ops behave as always)
   | inbound                       -- an inbound stanza handled by Client.recv: nothing is written, nothing held
   | req (answer : String)         -- inbound <r/> reaching Client.recv: the client writes the answer (the bytes of
                                   -- `<a h='inbound count'/>`; the count itself is C09's), through Send: never held
@@ -41,6 +44,7 @@ def step (s : St) : Op → St × List String
   | .ack h =>
     let q' := dropAcked h s.q
     ({ s with q := q' }, if q'.isEmpty then [] else q'.map (·.stz) ++ [rBytes])
+  | .ackFail h => ({ s with q := dropAcked h s.q }, [])
 
 def run (s : St) : List Op → St × List (List String)
   | [] => (s, [])
